@@ -217,6 +217,7 @@ func runC08(p *core.Prog, r *core.Result) {
 		"R8.2 for every in-module value type with attributes, the names it advertises (AttrNames) are names it answers (Attr): the encoder's has-attrs branch never encodes a nil",
 		"R8.3 a pickler case whose arguments are an open environment (can contain the subject again, since recursion is enabled) needs an in-progress guard, because NEWOBJ results are memoized only after their arguments",
 		"R8.4 no nondeterminism source (clock, pid, random, directory order, addresses, Go-map order into an ordered sink) is reachable from the fingerprint computation",
+		"R8.8 a host value type whose contents are written at run time (a map or slice field updated by its methods) does not implement the interfaces the encoder pickles by content (IterableMapping, Sequence): such values (caches) enter the fingerprint as constants, not as what happens to be stored in them in this process",
 		"R8.7 the host pickler builds no (name, value) association lists of its own: only the lists returned by ModuleEnv/Env (one entry per binding, unique names) reach the unpickler's dictionary conversion, which collapses equal names",
 		"R8.6 every argument the host pickler builds for a subject is computed from that subject alone (no captured or package-level state in its data flow): distinct closures never share an argument object that the unpickler then completes in place",
 		"R8.5 nothing dropped: every component of a function's environment (Env, ModuleEnv, Bytecode, Code) flows into the pickled tuple and every tuple element is consumed by the unpickler",
@@ -339,6 +340,9 @@ func runC08(p *core.Prog, r *core.Result) {
 		}
 	}
 	r.Floor("R8.6", nElems, 3, "elements of pickled argument tuples")
+
+	// ---- R8.8 values with run-time contents are not fingerprinted by content
+	checkRuntimeStateNotPickledByContent(p, r)
 
 	// ---- R8.7 the pickler builds no association lists of its own
 	nPk := 0
@@ -829,3 +833,111 @@ func checkPicklerCycleGuard(p *core.Prog, r *core.Result, picklers []*ssa.Functi
 }
 
 var _ = constant.Int
+
+
+// checkRuntimeStateNotPickledByContent implements R8.8. The encoder pickles any starlark.IterableMapping or
+// starlark.Sequence by its elements (before it looks at attributes). A module-level object whose elements are
+// produced while targets run (Cache) would make the fingerprint of every function that references it depend on the
+// state of the process: different before and after a run, and not total (cached values need not be picklable).
+func checkRuntimeStateNotPickledByContent(p *core.Prog, r *core.Result) {
+	sp := p.TPkgPath(pkgStar)
+	if sp == nil {
+		r.Unk("R8.8", "anchor:starlark", "-", "starlark package types not available")
+		return
+	}
+	var ifaces []*types.Interface
+	var inames []string
+	for _, n := range []string{"IterableMapping", "Sequence"} {
+		if obj := sp.Scope().Lookup(n); obj != nil {
+			if it, ok := obj.Type().Underlying().(*types.Interface); ok {
+				ifaces = append(ifaces, it)
+				inames = append(inames, n)
+			}
+		}
+	}
+	if len(ifaces) == 0 {
+		r.Unk("R8.8", "anchor:starlark.IterableMapping", "-", "interfaces not found")
+		return
+	}
+	valueIface, _ := sp.Scope().Lookup("Value").Type().Underlying().(*types.Interface)
+	n := 0
+	for _, pkg := range p.Pkgs {
+		scope := pkg.Types.Scope()
+		names := scope.Names()
+		sort.Strings(names)
+		for _, name := range names {
+			tn, ok := scope.Lookup(name).(*types.TypeName)
+			if !ok {
+				continue
+			}
+			named, ok := tn.Type().(*types.Named)
+			if !ok {
+				continue
+			}
+			st, ok := named.Underlying().(*types.Struct)
+			if !ok {
+				continue
+			}
+			ptr := types.NewPointer(named)
+			if valueIface != nil && !types.Implements(named, valueIface) && !types.Implements(ptr, valueIface) {
+				continue
+			}
+			// fields written by methods at run time
+			var dyn []string
+			for i := 0; i < st.NumFields(); i++ {
+				f := st.Field(i)
+				switch f.Type().Underlying().(type) {
+				case *types.Map, *types.Slice:
+				default:
+					continue
+				}
+				written := false
+				for _, fn := range p.ModuleFuncs() {
+					if fn.Signature.Recv() == nil || fn.Pkg == nil || fn.Pkg.Pkg != pkg.Types {
+						continue
+					}
+					rt := fn.Signature.Recv().Type()
+					if pt, isPtr := rt.(*types.Pointer); isPtr {
+						rt = pt.Elem()
+					}
+					if !types.Identical(rt, named) {
+						continue
+					}
+					core.Instrs(fn, func(in ssa.Instruction) {
+						switch x := in.(type) {
+						case *ssa.MapUpdate:
+							if core.LoadOfField(x.Map, pkg.Types.Path(), name, f.Name()) {
+								written = true
+							}
+						case *ssa.Store:
+							if core.IsField(x.Addr, pkg.Types.Path(), name, f.Name()) {
+								written = true
+							}
+						}
+					})
+				}
+				if written {
+					dyn = append(dyn, f.Name())
+				}
+			}
+			if len(dyn) == 0 {
+				continue
+			}
+			n++
+			construct := pkg.Types.Name() + "." + name + "#pickled-by-content"
+			var impl []string
+			for i, it := range ifaces {
+				if types.Implements(named, it) || types.Implements(ptr, it) {
+					impl = append(impl, inames[i])
+				}
+			}
+			pos := p.Pos(tn.Pos())
+			if len(impl) > 0 {
+				r.Bad("R8.8", construct, pos, "%s holds contents written at run time (%s) and implements starlark.%s, which the encoder pickles element by element: the fingerprint of every function that references such a value depends on what this process has stored in it so far (it differs before and after a run, so unchanged projects rebuild, and a stored value that cannot be pickled makes a successful target fail)", name, strings.Join(dyn, ", "), strings.Join(impl, "/"))
+			} else {
+				r.OK("R8.8", construct, pos, "%s (run-time contents: %s) is not pickled by content", name, strings.Join(dyn, ", "))
+			}
+		}
+	}
+	r.Floor("R8.8", n, 1, "host value types with run-time contents")
+}
